@@ -78,6 +78,19 @@ def classify(sig, body):
     m = WORK.search(b)
     if m:
         return False, "calls " + m.group(0).strip(" (.")
+    # only the `_at` forms may look at the clock while the pipeline is built (they turn an instant into a duration there)
+    fn = re.search(r"fn\s+(\w+)", sig)
+    # what a nested function item or a closure does happens when it is called, not when the pipeline is built
+    b_own = b
+    while True:
+        m2 = re.search(r"\bfn\s+\w+[^{;]*\{", b_own)
+        if not m2:
+            break
+        b_own = b_own[:m2.start()] + b_own[balanced(b_own, m2.end() - 1) + 1:]
+    b_own = re.sub(r"\|[^|]*\|\s*\{[^{}]*\}", "CLOSURE", b_own)
+    b_own = re.sub(r"\|[^|]*\|\s*[^,;)]*", "CLOSURE", b_own)
+    if re.search(r"\bInstant\s*::\s*now\b|\bSystemTime\s*::\s*now\b|\.elapsed\s*\(", b_own) and not (fn and re.search(r"_at(_threads)?$", fn.group(1))):
+        return False, "reads the clock while the pipeline is built"
     for mm in re.finditer(r"\.(\w+)\s*(?:::<[^>]*>)?\s*\(", b):
         if mm.group(1) not in ALLOWED:
             return False, "calls the method " + mm.group(1) + " (not a building method)"
